@@ -18,6 +18,16 @@ CLAIMED = {
             "DESIGN.md 4/C16",
             "trusted: pyvc VC generator (cross-checked per path witness against CPython), z3; hash collisions ignored",
             "contract-based deductive verification: VCs generated from the AST of the real functions, discharged by z3"),
+    "C05": ("proof",
+            "Deductive proof of the per-call clauses of the statement on the real AsyncFIXConnection.send_msg (all 19 "
+            "states x roles x message classes, unbounded integers), on the sequence-number choice of the real Codec.encode "
+            "(tag loop by an append-only loop rule, so any set of body tags) and on allocate_next_num_out; plus a syntactic "
+            "frame obligation that encode / write / persist_msg(OUTBOUND) are only reached through send_msg. The history "
+            "statement follows by induction from these clauses and the invariant they re-establish (induction not mechanised).",
+            "DESIGN.md 4/C05",
+            "assumed: Journaler.persist_msg abstract contract (proved in C13), hooks do not touch connection state, "
+            "transport write/drain do not raise; trusted: pyvc (60+ path witnesses per run replayed on CPython), z3",
+            "contract-based deductive verification: VCs generated from the AST of the real functions, discharged by z3"),
 }
 
 NOT_APPLICABLE = {
